@@ -108,6 +108,13 @@ def build_cases(tier):
     C.append(T('local_types_in_generic_funcs', '//go:noinline\nfunc wrap[T any](v T) interface{} {\n\ttype local struct{ v T }\n\treturn local{v}\n}\n//go:noinline\nfunc wrap2[T any](v T) interface{} {\n\ttype local struct{ v T }\n\treturn local{v}\n}\n//go:noinline\nfunc count[T comparable](xs ...T) int {\n\ttype key struct{ k T }\n\tm := map[key]int{}\n\tfor _, x := range xs {\n\t\tm[key{x}]++\n\t}\n\treturn len(m)\n}\n',
                V + 'println("r", wrap(a) == wrap(a), wrap(a) == wrap(b), wrap(a) == wrap(int8(a)), wrap(a) == wrap2(a), wrap("s") == wrap("s"), count(a, b, a), count("x", "y"), count(int8(a), int8(b)))',
                lambda inp: ok([('r', ['true', '(= in_0 in_1)', 'false', 'false', 'true', '(ite (= in_0 in_1) 1 2)', '2', '(ite (= (mod (+ in_0 128) 256) (mod (+ in_1 128) 256)) 1 2)'])])))
+    # ---- the type parameter itself as type-switch case, assertion target, conversion target and composite element
+    TP = 'type pr struct{ a, b int }\n//go:noinline\nfunc pick[T any](v interface{}, d T) T {\n\tswitch x := v.(type) {\n\tcase T:\n\t\treturn x\n\tcase []T:\n\t\treturn x[0]\n\tcase map[string]T:\n\t\treturn x["k"]\n\tcase *T:\n\t\treturn *x\n\t}\n\treturn d\n}\n//go:noinline\nfunc must[T any](v interface{}) (T, bool) {\n\tx, ok := v.(T)\n\treturn x, ok\n}\n//go:noinline\nfunc total[T ~int | ~int8](vs ...interface{}) T {\n\tvar t T\n\tfor _, v := range vs {\n\t\tswitch x := v.(type) {\n\t\tcase T:\n\t\t\tt += x + 1\n\t\tcase int16:\n\t\t\tt += T(x)\n\t\t}\n\t}\n\treturn t\n}\n'
+    C.append(T('type_param_switch_assert', TP, V + 'i8 := int8(a)\nprintln("p", pick[int](a, -1)+1, pick[int](int8(1), -1), pick[int]([]int{b}, -1), pick[int](map[string]int{"k": a}, -1), pick[int](&b, -1), pick[int8](i8, 0), pick[string]("xy", "")+"z" == "xyz", pick[pr](pr{a, b}, pr{}).b, pick[[2]int]([2]int{a, b}, [2]int{})[1], pick[float64](1.5, 0) == 1.5, pick[bool](true, false))\n'
+               'x1, o1 := must[int](a)\nx2, o2 := must[int](int8(1))\nx3, o3 := must[pr](pr{a, b})\nx4, o4 := must[string](a)\nprintln("m", x1, o1, x2, o2, x3.a, o3, len(x4), o4)\nprintln("t", total[int](a, b, int16(3), "s", int8(1)), total[int8](int8(a), int8(b), a, int16(3)))',
+               lambda inp: ok([('p', ['(+ in_0 1)', '(- 1)', 'in_1', 'in_0', 'in_1', W('int8', 'in_0'), 'true', 'in_1', 'in_1', 'true', 'true']),
+                               ('m', ['in_0', 'true', '0', 'false', 'in_0', 'true', '0', 'false']),
+                               ('t', ['(+ in_0 in_1 2 3)', W('int8', '(+ in_0 in_1 2 3)')])])))
     # ---- nested / recursive instantiation through other generic code
     C.append(T('nested_instantiation', 'type list[T any] struct {\n\thead T\n\ttail *list[T]\n}\nfunc (l *list[T]) len() int {\n\tif l == nil {\n\t\treturn 0\n\t}\n\treturn 1 + l.tail.len()\n}\n//go:noinline\nfunc cons[T any](h T, t *list[T]) *list[T] { return &list[T]{h, t} }\n//go:noinline\nfunc pairUp[T any](x T) []T { return dup(dup(x)...)[1:] }\nfunc dup[T any](xs ...T) []T { return append(xs, xs...) }\n//go:noinline\nfunc mapOf[K comparable, V any](k K, v V) map[K][]V { return map[K][]V{k: dup(v)} }\n//go:noinline\nfunc depth[T any](n int, v T) int {\n\tif n == 0 {\n\t\treturn 0\n\t}\n\treturn 1 + depth(n-1, v)\n}\n',
                V + 'l := cons(a, cons(b, nil))\nls := cons("s", nil)\nll := cons(l, nil)\nm := mapOf("k", int8(a))\nprintln("r", l.len(), ls.len(), ll.head.tail.head, len(pairUp(a)), pairUp(int8(b))[2], len(m["k"]), m["k"][1], depth(3, l))',
